@@ -21,6 +21,7 @@ func init() {
 		"errors.New":   freshError,
 		"bytes.Equal":  bytesEqual,
 		"google.golang.org/protobuf/proto.Unmarshal": protoUnmarshal,
+		"google.golang.org/protobuf/proto.Clone":     protoClone,
 		"crypto/sha512.Sum384": hashFn("sha384", 48),
 		"crypto/sha256.Sum256": hashFn("sha256", 32),
 		"crypto/sha512.Sum512": hashFn("sha512", 64),
@@ -190,4 +191,129 @@ func freshErrorOrNil(f *Frame, in ssa.Instruction, st *State, g string) SV {
 	e := c.freshConst("err", "Iface")
 	c.assume(g, c.wf(types.Universe.Lookup("error").Type(), e, st.wm()))
 	return tv(e)
+}
+
+// protoClone: deep copy (to depth 3) of a message whose dynamic type is known: the result is freshly
+// allocated, scalar fields are equal, bytes fields have equal content, repeated bytes fields have equal
+// length and element-wise equal content, nested messages are cloned recursively.
+func protoClone(f *Frame, in ssa.Instruction, args []SV, cc *ssa.CallCommon, st *State, g string) (SV, bool) {
+	c := f.c()
+	m := args[0]
+	if m.Dyn == nil || m.DynV == nil || m.DynV.T == "" {
+		return SV{}, false
+	}
+	pt, ok := m.Dyn.Underlying().(*types.Pointer)
+	if !ok {
+		return SV{}, false
+	}
+	if _, ok := pt.Elem().Underlying().(*types.Struct); !ok {
+		return SV{}, false
+	}
+	f.x.syncViews(st)
+	f.x.usedStub["model: proto.Clone returns a fresh deep copy (scalars equal, bytes content equal, nested messages cloned to depth 3)"] = true
+	nr := f.cloneMsg(pt.Elem(), m.DynV.T, st, g, 3)
+	res := ite("(= "+m.DynV.T+" 0)", "0", nr)
+	rv := tv(res)
+	return SV{T: fmt.Sprintf("(mk-iface %d %s)", c.typeID(m.Dyn), res), Dyn: m.Dyn, DynV: &rv}, true
+}
+
+func (f *Frame) cloneBytes(src string, st *State, g string) string {
+	c := f.c()
+	elem := types.Typ[types.Uint8]
+	eh := c.elemHeap(elem)
+	r := st.alloc()
+	ln := "(s.len " + src + ")"
+	na := f.copyRange(c.zero(types.NewArray(elem, 0)), "0", sel(st.get(eh), "(s.ref "+src+")"), "(s.off "+src+")", ln, "Int", g)
+	st.set(eh, sto(st.get(eh), r, na))
+	ns := c.freshConst("clone", "Slice")
+	c.assert(eq(ns, ite("(= (s.ref "+src+") 0)", "(mk-slice 0 0 0 0)", "(mk-slice "+r+" 0 "+ln+" "+ln+")")))
+	c.assume(g, eq(app("bv.of", sel(st.get(eh), "(s.ref "+ns+")"), "(s.off "+ns+")", "(s.len "+ns+")"),
+		app("bv.of", sel(st.get(eh), "(s.ref "+src+")"), "(s.off "+src+")", "(s.len "+src+")")))
+	return ns
+}
+
+func isBytes(t types.Type) bool {
+	sl, ok := t.Underlying().(*types.Slice)
+	if !ok {
+		return false
+	}
+	b, ok := sl.Elem().Underlying().(*types.Basic)
+	return ok && b.Kind() == types.Uint8
+}
+
+func (f *Frame) cloneMsg(t types.Type, src string, st *State, g string, depth int) string {
+	c := f.c()
+	s := t.Underlying().(*types.Struct)
+	w0 := st.wm()
+	nr := st.alloc()
+	for k := 0; k < s.NumFields(); k++ {
+		fld := s.Field(k)
+		h := c.fieldHeap(t, k)
+		cur := sel(st.get(h), src)
+		var nv string
+		switch u := fld.Type().Underlying().(type) {
+		case *types.Basic:
+			nv = cur
+		case *types.Slice:
+			if isBytes(fld.Type()) {
+				nv = f.cloneBytes(cur, st, g)
+			} else if isBytes(u.Elem()) {
+				// [][]byte: fresh outer array, element-wise equal content
+				eh := c.elemHeap(u.Elem())
+				bh := c.elemHeap(types.Typ[types.Uint8])
+				r := st.alloc()
+				outer := c.freshConst("cloneouter", "(Array Int Slice)")
+				c.quant = true
+				ln := "(s.len " + cur + ")"
+				srcOuter := sel(st.get(eh), "(s.ref "+cur+")")
+				c.assume(g, fmt.Sprintf("(forall ((i! Int)) (! (=> (and (<= 0 i!) (< i! %[1]s)) (and (= (s.len (select %[2]s i!)) (s.len (select %[3]s (+ (s.off %[4]s) i!)))) (>= (s.ref (select %[2]s i!)) 0) (< (s.ref (select %[2]s i!)) %[7]s) (or (= (s.ref (select %[2]s i!)) 0) (>= (s.ref (select %[2]s i!)) %[6]s)) (= (bv.of (select %[5]s (s.ref (select %[2]s i!))) (s.off (select %[2]s i!)) (s.len (select %[2]s i!))) (bv.of (select %[5]s (s.ref (select %[3]s (+ (s.off %[4]s) i!)))) (s.off (select %[3]s (+ (s.off %[4]s) i!))) (s.len (select %[3]s (+ (s.off %[4]s) i!))))))) :pattern ((select %[2]s i!))))",
+					ln, outer, srcOuter, cur, st.get(bh), w0, "WMAFTER"))
+				st.set(eh, sto(st.get(eh), r, outer))
+				st.bumpWM()
+				// patch the watermark placeholder now that the inner allocations are accounted for
+				last := len(c.asserts) - 1
+				for i := last; i >= 0 && i > last-6; i-- {
+					if strings.Contains(c.asserts[i], "WMAFTER") {
+						c.asserts[i] = strings.ReplaceAll(c.asserts[i], "WMAFTER", st.wm())
+					}
+				}
+				nv = ite("(= (s.ref "+cur+") 0)", "(mk-slice 0 0 0 0)", "(mk-slice "+r+" 0 "+ln+" "+ln+")")
+			} else {
+				fv := c.freshConst("clonefld", c.sortOf(fld.Type()))
+				st.bumpWM()
+				c.assume(g, c.wf(fld.Type(), fv, st.wm()))
+				c.assume(g, fmt.Sprintf("(= (s.len %s) (s.len %s))", fv, cur))
+				nv = fv
+			}
+		case *types.Pointer:
+			if _, ok := u.Elem().Underlying().(*types.Struct); ok && depth > 0 && fld.Exported() {
+				inner := f.cloneMsg(u.Elem(), cur, st, g, depth-1)
+				nv = ite("(= "+cur+" 0)", "0", inner)
+			} else {
+				nv = "0"
+			}
+		case *types.Map:
+			has, val, ln := c.mapHeaps(u)
+			r := st.alloc()
+			st.set(has, sto(st.get(has), r, sel(st.get(has), cur)))
+			st.set(ln, sto(st.get(ln), r, sel(st.get(ln), cur)))
+			if isBytes(u.Elem()) {
+				bh := c.elemHeap(types.Typ[types.Uint8])
+				mv := c.freshConst("clonemap", "(Array "+c.sortOf(u.Key())+" Slice)")
+				c.quant = true
+				st.bumpWM()
+				srcm := sel(st.get(val), cur)
+				c.assume(g, fmt.Sprintf("(forall ((k! %[1]s)) (! (and (= (s.len (select %[2]s k!)) (s.len (select %[3]s k!))) (>= (s.ref (select %[2]s k!)) 0) (< (s.ref (select %[2]s k!)) %[6]s) (or (= (s.ref (select %[2]s k!)) 0) (>= (s.ref (select %[2]s k!)) %[5]s)) (= (bv.of (select %[4]s (s.ref (select %[2]s k!))) (s.off (select %[2]s k!)) (s.len (select %[2]s k!))) (bv.of (select %[4]s (s.ref (select %[3]s k!))) (s.off (select %[3]s k!)) (s.len (select %[3]s k!))))) :pattern ((select %[2]s k!))))",
+					c.sortOf(u.Key()), mv, srcm, st.get(bh), w0, st.wm()))
+				st.set(val, sto(st.get(val), r, mv))
+			} else {
+				st.set(val, sto(st.get(val), r, sel(st.get(val), cur)))
+			}
+			nv = ite("(= "+cur+" 0)", "0", r)
+		default:
+			nv = c.zero(fld.Type())
+		}
+		st.set(h, sto(st.get(h), nr, nv))
+	}
+	return nr
 }
